@@ -30,6 +30,7 @@ func checkC16(c *Ctx) {
 	c.Rule("R3", "retry for ever: every return of the Run loops is the ctx.Done() arm")
 	c.Rule("R4", "sender loop: every blocking op watches the stop channel")
 	c.Rule("R5", "resubscribe carries the whole snapshot; dependency hook symmetric over both clients")
+	c.Rule("R6", "the sender's stop signal is raised by the goroutine that runs the receiver (a receive failure ends the sender, so the stream is re-established)")
 
 	subF := p.Field(configPkg, "svcDiscoveryClient", "subscribed")
 	subCh := p.Field(configPkg, "svcDiscoveryClient", "subCh")
@@ -319,6 +320,7 @@ func checkC16(c *Ctx) {
 		c.Check(ok, "R5", "dependency hook symmetric", sd.Pos(), "Subscribe and Unsubscribe on both the config and the endpoint client", fmt.Sprintf("the dependency hook is not symmetric over the two clients (%v): a dependency change is tracked on one stream only", counts))
 	}
 	c.Expect("R5", 2)
+	checkSenderWokenByReceiver(c, "R6")
 }
 
 // drainsQueue: g contains a non-blocking select receiving from queue field q in a loop.
@@ -349,4 +351,156 @@ func calleesIn(p *Prog, fn *ssa.Function) []*ssa.Function {
 		}
 	})
 	return out
+}
+
+// checkSenderWokenByReceiver (C16.R6): the stream is re-established only when run() returns, and run() returns only
+// when the sender loop returns. The sender is idle most of the time, so the only thing that can end it after a
+// receive failure is a stop signal raised by the goroutine that runs the receiver: the channel the sender's blocking
+// selects watch must be closed (or its context cancelled) inside that goroutine, not merely by run() itself on exit.
+func checkSenderWokenByReceiver(c *Ctx, rule string) {
+	p := c.P
+	ls := p.Func(configPkg, "(*svcDiscoveryClient).loopSend")
+	lr := p.Func(configPkg, "(*svcDiscoveryClient).loopRecv")
+	if ls == nil || lr == nil {
+		c.Unresolved(rule, "loopSend / loopRecv")
+		return
+	}
+	for _, ed := range p.callersOf(ls) {
+		run := ed.Caller.Func
+		if p.isTestFn(run) {
+			continue
+		}
+		site := "stop signal of the sender started in " + fnKey(run)
+		// goroutine(s) of run that run the receiver
+		var recvGo []*ssa.Function
+		eachInstr(run, func(_ *ssa.BasicBlock, _ int, in ssa.Instruction) {
+			g, ok := in.(*ssa.Go)
+			if !ok {
+				return
+			}
+			for _, h := range p.callees(g) {
+				if h == lr || p.reachable([]*ssa.Function{h}, nil)[lr] {
+					recvGo = append(recvGo, h)
+				}
+			}
+		})
+		if len(recvGo) == 0 {
+			c.Undecided(rule, site, ed.Pos(), "the receiver is not started as a goroutine next to the sender")
+			continue
+		}
+		// signals raised when the receiver goroutine ends: cells whose channel it closes, cancel functions it calls
+		raised := map[ssa.Value]bool{}
+		for _, g := range recvGo {
+			bind := func(v ssa.Value) ssa.Value {
+				if u, ok := v.(*ssa.UnOp); ok && u.Op == token.MUL {
+					v = u.X
+				}
+				if fv, ok := v.(*ssa.FreeVar); ok {
+					for i, q := range g.FreeVars {
+						if q == fv {
+							var out ssa.Value
+							eachInstr(run, func(_ *ssa.BasicBlock, _ int, x ssa.Instruction) {
+								if mc, ok := x.(*ssa.MakeClosure); ok && mc.Fn == ssa.Value(g) && i < len(mc.Bindings) {
+									out = mc.Bindings[i]
+								}
+							})
+							return out
+						}
+					}
+				}
+				return v
+			}
+			for _, h := range append([]*ssa.Function{g}, g.AnonFuncs...) {
+				eachInstr(h, func(_ *ssa.BasicBlock, _ int, in ssa.Instruction) {
+					cc := callOf(in)
+					if cc == nil {
+						return
+					}
+					if b, ok := cc.Value.(*ssa.Builtin); ok && b.Name() == "close" {
+						if v := bind(cc.Args[0]); v != nil {
+							raised[v] = true
+						}
+						return
+					}
+					// a cancel function (func()) captured from run
+					if calleeFn(cc) == nil && !cc.IsInvoke() {
+						if v := bind(cc.Value); v != nil {
+							raised[v] = true
+						}
+					}
+				})
+			}
+		}
+		// what the sender watches: parameters of loopSend used as the channel of a blocking select's receive case
+		okAll, nsel := true, 0
+		why := ""
+		eachInstr(ls, func(_ *ssa.BasicBlock, _ int, in ssa.Instruction) {
+			sel, ok := in.(*ssa.Select)
+			if !ok || !sel.Blocking {
+				return
+			}
+			nsel++
+			good := false
+			for _, st := range sel.States {
+				if st.Dir != types.RecvOnly {
+					continue
+				}
+				// channel parameter
+				if prm, ok := st.Chan.(*ssa.Parameter); ok {
+					idx := paramIndex(ls, prm)
+					if idx < len(ed.Site.Common().Args) {
+						a := ed.Site.Common().Args[idx]
+						for {
+							if ct, ok := a.(*ssa.ChangeType); ok {
+								a = ct.X
+								continue
+							}
+							break
+						}
+						if u, ok := a.(*ssa.UnOp); ok && u.Op == token.MUL {
+							a = u.X
+						}
+						if raised[a] {
+							good = true
+						}
+					}
+				}
+				// ctx.Done() of a context parameter whose cancel function the receiver goroutine calls
+				if call, ok := st.Chan.(*ssa.Call); ok && call.Call.IsInvoke() && call.Call.Method.Name() == "Done" {
+					if prm, ok := call.Call.Value.(*ssa.Parameter); ok {
+						idx := paramIndex(ls, prm)
+						if idx < len(ed.Site.Common().Args) {
+							a := ed.Site.Common().Args[idx]
+							// ctx, cancel := context.WithCancel(...): a = Extract 0, cancel = Extract 1 of the same call
+							if ex, ok := a.(*ssa.Extract); ok {
+								for _, r := range *ex.Tuple.Referrers() {
+									if ex2, ok := r.(*ssa.Extract); ok && ex2.Index == 1 {
+										if raised[ex2] {
+											good = true
+										}
+										// cancel captured through a cell
+										for _, r2 := range *ex2.Referrers() {
+											if s, ok := r2.(*ssa.Store); ok && raised[s.Addr] {
+												good = true
+											}
+										}
+									}
+								}
+							}
+						}
+					}
+				}
+			}
+			if !good {
+				okAll = false
+				why = p.Pos(sel.Pos())
+			}
+		})
+		if nsel == 0 {
+			c.Undecided(rule, site, ed.Pos(), "the sender loop has no blocking select")
+			continue
+		}
+		c.Check(okAll, rule, site, ed.Pos(), fmt.Sprintf("%d blocking selects of the sender watch a signal that the receiver goroutine raises when it ends", nsel), "a blocking select of the sender ("+why+") watches no signal that is raised when the receiver ends: after a receive failure on an idle stream the sender stays parked, run() never returns and the stream is never re-established until some later subscription change happens to fail on the dead stream")
+	}
+	c.Expect(rule, 1)
 }
